@@ -28,6 +28,7 @@ EXPLANATION = (
     "Not decided: dtype promotion results, numpy broadcasting, bit-for-bit values.")
 EXPLANATION += (" Added after the audit wave: C01.6 in the branch where only the other operand carries noise, the noise handed to the constructor takes the result's shape (it mentions the receiver's arrays or was broadcast to a shape that does), because the length guard admits a one-sample operand; C01.8 an index that is a numpy integer (an Integral that is not an int) takes the integer branch of optical_signal.__getitem__; C01.7 accepts either outcome for a one-sample RECEIVER against a longer operand (the statement does not settle it).")
 EXPLANATION += (" Second audit wave: C01.6 the shape clause also covers __mul__/__rmul__; C01.4 for a text or array input without dtype one alternative of the stored signal is an astype to a numeric type (0/1 text and booleans must not be stored as bool arrays: numpy's bool + is OR).")
+EXPLANATION += (' Wave 14: C01.9 / C01.10 are the transform table of C02 (C02.1 / C02.2) reported under this property: the domain transforms return fft / ifft of signal and noise along the last axis with no length argument (a padded transform is longer than the operand).')
 TRUSTED = ["numpy.array copies by default; basic slicing returns views; arithmetic allocates", "utils.str2array returns a fresh array", "CPython ast"]
 
 OPS = ["__add__", "__radd__", "__sub__", "__rsub__", "__mul__", "__rmul__"]
@@ -524,6 +525,11 @@ def run(ctx):
     rule_ctor_symmetry(ctx)
     rule_numeric_storage(ctx)
     rule_slicing(ctx)
+    # C01.9 / C01.10: the domain transforms return an object "of the expected length" whose signal and noise are transformed alike -
+    # the transform table of C02 (C02.1 / C02.2), reported here too: a padded or truncated transform (fft(x, n=...)) changes the length
+    from ..rules import run_relabelled
+    from .c02 import rule_call_table
+    run_relabelled(ctx, rule_call_table, {"C02.1": "C01.9", "C02.2": "C01.10"})
     ctx.require_min("C01.1", 20)
     ctx.require_min("C01.2", 18)
     ctx.require_min("C01.3", 50)
